@@ -1029,6 +1029,94 @@ def comp_maybe_div(prop, tier, comp, work):
 
 
 # --------------------------------------------------------------------------------------------
+# R-OWN (C19) on instantiations of utl::vector<T> and of utl::either/maybe with a non-trivial alternative:
+#  vector: every constructor allocates its buffer; a store to buffer_ happens only when buffer_ is null or after
+#  deallocate(buffer_) on the same path and only from allocate(); growing copies the old contents before freeing;
+#  copy-ctor / operator= resize to the source size and copy element-wise (never the pointer); the destructor frees
+#  whenever buffer_ is non-null.  either/maybe: the destructor destroys the active alternative.
+# --------------------------------------------------------------------------------------------
+def _gset(f):
+    return set((g["cond"].replace(" ", ""), g["pol"]) for g in expand_guards(f.get("g", [])))
+
+def rule_own(rows, prop):
+    findings, samples = [], []
+    n = 0
+    for r in rows:
+        if "fn" not in r or not r.get("cfg") or r.get("lambda"):
+            continue
+        cls = r.get("class", "")
+        short = r["fn"].split("::")[-1]
+        facts = r["facts"]
+        if re.fullmatch(r"nmtools::utl::vector", cls) and "/utl/vector.hpp" in r["file"]:
+            n += 1
+            is_ctor = short == "vector" or short.startswith("vector<")
+            is_dtor = short == "~vector"
+            inits = {f["a"]: f["b"] for f in facts if f["k"] == "ctorinit"}
+            locs, _ = single_def_locals(r)
+            if is_ctor and not re.search(r"allocate\(", inits.get("buffer_", "")):
+                findings.append(finding("R-OWN.vector.ctor", prop, r, "buffer_", "constructor does not initialise buffer_ from allocate(): %s" % inits.get("buffer_", "<none>")))
+            deallocs = [f for f in facts if f["k"] == "call" and f["a"].endswith("deallocate") and f["b"].endswith("deallocate(this.buffer_)")]
+            for f in facts:
+                if f["k"] == "assign" and f["a"] == "this.buffer_":
+                    src = subst_locals(f["b"], locs)
+                    if "allocate(" not in src:
+                        findings.append(finding("R-OWN.vector.store", prop, r, "buffer_ = " + f["b"], "buffer_ is assigned from %s, not from a fresh allocation (pointer copy / aliasing)" % src, f.get("line"))); continue
+                    g = _gset(f)
+                    if ("(!this.buffer_)", 1) in g:
+                        continue
+                    ok = any(d.get("line", 0) < f.get("line", 0) and (_gset(d) - {("this.buffer_", 1)}) <= g for d in deallocs)
+                    if not ok:
+                        findings.append(finding("R-OWN.vector.store", prop, r, "buffer_ = " + f["b"], "buffer_ is overwritten without deallocate(buffer_) on the same path (leak)", f.get("line")))
+                if f["k"] == "assign" and re.search(r"\$other\.buffer_$", f["b"]) and f["a"] == "this.buffer_":
+                    findings.append(finding("R-OWN.vector.copy", prop, r, f["b"], "pointer of the source is copied", f.get("line")))
+            if short == "resize":
+                mem = [f for f in facts if f["k"] == "call" and f["a"].endswith("memcpy")]
+                for d in deallocs:
+                    if not any(m.get("line", 0) < d.get("line", 0) and re.search(r"memcpy\(%new_buffer,this\.buffer_,\(sizeof\(\w+\) \* %old_size\)\)", m["b"]) for m in mem):
+                        findings.append(finding("R-OWN.vector.grow", prop, r, d["b"], "old buffer is freed before its old_size elements are copied into the new buffer", d.get("line")))
+                if not deallocs:
+                    findings.append(finding("R-OWN.vector.grow", prop, r, "resize", "growing path never frees the old buffer"))
+            if is_dtor:
+                if not deallocs:
+                    findings.append(finding("R-OWN.vector.dtor", prop, r, "~vector", "destructor never deallocates buffer_"))
+                for d in deallocs:
+                    extra = _gset(d) - {("this.buffer_", 1)}
+                    if extra:
+                        findings.append(finding("R-OWN.vector.dtor", prop, r, d["b"], "deallocation additionally depends on %s: a non-null buffer can be leaked" % sorted(extra), d.get("line")))
+            if (is_ctor and [p["name"] for p in r["params"]] == ["other"]) or short == "operator=":
+                has_resize = any(f["k"] == "call" and f["b"] == "this.resize($other.size_)" for f in facts)
+                has_copy = any(f["k"] == "assign" and f["a"] == "this.buffer_[%i]" and f["b"] == "$other.buffer_[%i]" and ("(%i<this.size_)", 1) in _gset(f) for f in facts)
+                if not (has_resize and has_copy):
+                    findings.append(finding("R-OWN.vector.copy", prop, r, short, "copy does not resize to the source size and copy element-wise under i < size_ (resize=%s, element copy=%s)" % (has_resize, has_copy)))
+            if short == "push_back":
+                grow = any(f["k"] == "call" and f["b"] == "this.resize((this.size_ + 1))" and ("(this.buffer_size_<(this.size_+1))", 1) in _gset(f) for f in facts)
+                inc = any(f["k"] == "assign" and f["a"] == "this.size_" and f["b"] == "(this.size_ + 1)" and ("(this.buffer_size_<(this.size_+1))", 0) in _gset(f) for f in facts)
+                st = any(f["k"] == "assign" and f["a"] == "this.buffer_[(this.size_ - 1)]" and f["b"] == "$t" for f in facts)
+                if not (grow and inc and st):
+                    findings.append(finding("R-OWN.vector.push_back", prop, r, "push_back", "push_back is not {grow when full | size_+1 otherwise; buffer_[size_-1] = t} (grow=%s, inc=%s, store=%s)" % (grow, inc, st)))
+            if len(samples) < 3:
+                samples.append("R-OWN %s" % r.get("sig", r["fn"])[:90])
+        elif re.fullmatch(r"nmtools::utl::(either|maybe)", cls) and short in ("~either", "~maybe") and "vector" in r.get("sig", ""):
+            n += 1
+            destroys = any(f["k"] == "call" and (".~" in f["b"] or "~" in f["a"]) for f in facts)
+            if not destroys:
+                findings.append(finding("R-OWN.either.dtor", prop, r, short, "destructor of an either/maybe with a non-trivially-destructible alternative destroys no member (the active alternative's resources are leaked)"))
+    return findings, n, samples
+
+
+def comp_own(prop, tier, comp, work):
+    t0 = time.time()
+    tu = os.path.join(VERIF, "drivers", "utl_inst.cpp")
+    rows, err, cmd = run_nmlint(tu, filters=["/include/nmtools/utl/"], inst=True, cfg=True)
+    out = dict(broken=[], units=1, functions=len(rows), cmd=cmd)
+    if err:
+        out["broken"].append(err); return out
+    f, n, samples = rule_own(rows, prop)
+    out.update(findings=f, instances={"R-OWN": n}, evaluations=n, distinct_nontrivial=n - len(set((x["function"], x["instantiation"]) for x in f)), samples=samples, wall_s=round(time.time() - t0, 2))
+    return out
+
+
+# --------------------------------------------------------------------------------------------
 # driver
 # --------------------------------------------------------------------------------------------
 def run(prop, tier, spec, jobs=16):
@@ -1068,4 +1156,4 @@ def comp_fwd_array(prop, tier, comp, work):
     return out
 
 
-RULES = {"R-FWD.array": comp_fwd_array, "R-FWD.functional": comp_fwd_functional, "R-UFUNC": comp_ufunc, "R-KSIB": comp_ksib, "R-SIMD": comp_simd, "R-CONSTBRANCH": comp_constbranch, "R-TRAITPROV": comp_traitprov, "R-MAYBE-DIV": comp_maybe_div}
+RULES = {"R-FWD.array": comp_fwd_array, "R-FWD.functional": comp_fwd_functional, "R-UFUNC": comp_ufunc, "R-KSIB": comp_ksib, "R-SIMD": comp_simd, "R-CONSTBRANCH": comp_constbranch, "R-TRAITPROV": comp_traitprov, "R-MAYBE-DIV": comp_maybe_div, "R-OWN": comp_own}
